@@ -365,6 +365,67 @@ def simhttp_vectors():
     return ok
 
 
+# fd-level and tempfile program run on a real directory and on SimFS
+def _fd_prog(root):
+    out = []
+    os.makedirs(root + "/d", exist_ok=True)
+    fd = os.open(root + "/d/a", os.O_WRONLY | os.O_CREAT | os.O_EXCL, 0o600)
+    out.append(os.write(fd, b"hello"))
+    os.fsync(fd); os.close(fd)
+    try:
+        os.open(root + "/d/a", os.O_WRONLY | os.O_CREAT | os.O_EXCL)
+    except FileExistsError as e:
+        out.append("EEXIST")
+    fd = os.open(root + "/d/a", os.O_RDONLY)
+    out.append(os.read(fd, 3)); out.append(os.read(fd, 10)); out.append(os.read(fd, 10))
+    out.append(os.fstat(fd).st_size); os.close(fd)
+    fd = os.open(root + "/d/a", os.O_RDWR)
+    os.lseek(fd, 1, 0); os.write(fd, b"E"); os.close(fd)
+    out.append(open(root + "/d/a", "rb").read())
+    fd = os.open(root + "/d/a", os.O_WRONLY | os.O_APPEND)
+    os.write(fd, b"!!"); os.close(fd)
+    with os.fdopen(os.open(root + "/d/b", os.O_WRONLY | os.O_CREAT | os.O_TRUNC), "wb") as f:
+        f.write(b"xyz"); f.flush(); os.fsync(f.fileno())
+    out.append(open(root + "/d/a", "rb").read()); out.append(open(root + "/d/b", "rb").read())
+    with open(root + "/d/c", "wb") as f:
+        f.write(b"123"); f.flush(); os.fsync(f.fileno())
+    with tempfile.NamedTemporaryFile(dir=root + "/d", delete=False, prefix=".t-") as f:
+        f.write(b"tmpdata"); n = f.name
+    os.replace(n, root + "/d/c")
+    out.append(open(root + "/d/c", "rb").read())
+    fd, n = tempfile.mkstemp(dir=root + "/d"); os.write(fd, b"q"); os.close(fd); os.unlink(n)
+    d = tempfile.mkdtemp(dir=root); os.rmdir(d)
+    with tempfile.NamedTemporaryFile(dir=root + "/d") as f:
+        f.write(b"gone")
+    try:
+        os.open(root + "/d/zz", os.O_RDONLY)
+    except FileNotFoundError:
+        out.append("ENOENT")
+    out.append(sorted(os.listdir(root + "/d")))
+    return out
+
+
+def fd_fidelity():
+    import shutil
+    import tempfile
+    from sim import simfs, simproc
+    base = "/dev/shm" if os.path.isdir("/dev/shm") else None
+    r = tempfile.mkdtemp(prefix="verif-selftest-", dir=base)
+    try:
+        real = _fd_prog(r)
+    finally:
+        shutil.rmtree(r, ignore_errors=True)
+    simproc.install()
+    fs = simfs.SimFS()
+    with simfs.mounted(fs):
+        os.makedirs("/simfs/r")
+        sim = _fd_prog("/simfs/r")
+    ok = real == sim
+    print("fd-level/tempfile fidelity:", "ok" if ok else
+          f"FAILED\n real {real}\n sim  {sim}")
+    return ok
+
+
 def main():
     ap = argparse.ArgumentParser()
     ap.add_argument("--fast", action="store_true")
@@ -377,6 +438,7 @@ def main():
     ok &= fidelity(300 if args.fast else 3000)
     ok &= oracle_vectors()
     ok &= simproc_fidelity()
+    ok &= fd_fidelity()
     ok &= simhttp_vectors()
     checks = sorted(glob.glob(os.path.join(V, "checks", "c[0-9][0-9].py")))
     if args.only:
